@@ -262,6 +262,13 @@ def run(ctx, config='rel-all'):
                     hit = reaches(cg, b['id'], arena_entries)
                     if hit:
                         offenders.append((b['id'], hit))
+                    # ... nor hand the arena (or something that allocates in it) to whoever holds the value: an accessor returning
+                    # `&Bump` / a `&mut Vec<'bump, _>` from a Send / Sync type lends the arena to the other thread
+                    outty = m.get('output') or ''
+                    heads = [h for h, _ in facts.owned_types(outty.lstrip('&').replace("'static ", '').split(' ', 1)[-1] if outty.startswith('&') else outty)]
+                    exposes = 'Bump' in [h.split('::')[-1] for h in heads] or re.search(r"&(?:'\w+ )?(?:mut )?Bump\b", outty)
+                    if exposes and not m.get('unsafe'):
+                        offenders.append((b['id'], ['returns ' + outty]))
                 # the drop glue of the fields runs wherever a value of the type is dropped, Drop impl or not
                 for f in a['fields']:
                     for gid in facts.drop_glue_bodies(db, f['ty']):
